@@ -102,18 +102,20 @@ type histStats struct {
 
 // observe: every family member's Enabled (boundary levels) and Level against the reference.
 func (f *family) observe(rp *reporter, seq []sym, upto int, st *histStats) {
-	extra := func() map[string]any { return map[string]any{"start": f.start, "steps": seq[:upto]} }
+	extra := func() map[string]any { return map[string]any{"start": f.start, "steps": cp(seq[:upto])} }
 	for j := 0; j < nFamily; j++ {
 		st.levelChecks += int64(f.t.checkLevels(rp, "histories", f.roots[j], familyName[j], boundaryLevels, extra))
 		got, want := int8(f.loggers[j].Level()), int8(zapcore.LevelOf(f.loggers[j].Core()))
 		if got != want {
 			j := j
 			rp.hit("level:Logger.Level-differs-from-LevelOf(core)", func() (string, any) {
-				return fmt.Sprintf("base %s, %s: Level()=%s, LevelOf(Core())=%s", f.base, familyName[j], lvlName(got), lvlName(want)), map[string]any{"part": "histories", "tree": f.base.String(), "start": f.start, "steps": seq[:upto]}
+				return fmt.Sprintf("base %s, %s: Level()=%s, LevelOf(Core())=%s", f.base, familyName[j], lvlName(got), lvlName(want)), map[string]any{"part": "histories", "tree": f.base.String(), "start": f.start, "steps": cp(seq[:upto])}
 			})
 		}
 	}
 }
+
+func cp(s []sym) []sym { return append([]sym{}, s...) }
 
 type hstate struct {
 	base    *node
@@ -140,7 +142,7 @@ func runSeq(rp *reporter, base *node, s0 int8, seq []sym, st *histStats, states 
 			}
 			i := i
 			ci := callInfo{part: "histories", fe: familyName[j] + " (Log)", family: "history", field: true, msg: "h", lc: f.loggers[j].Core(),
-				ctx: func() map[string]any { return map[string]any{"start": s0, "steps": seq[:i+1]} }}
+				ctx: func() map[string]any { return map[string]any{"start": s0, "steps": cp(seq[:i+1])} }}
 			if j == jSugar {
 				ci.fe = "Sugar (Logw)"
 				t.run(rp, &ci, l, func() { f.sugar.Logw(zapcore.Level(l), ci.msg, "f", countM{&t.entryM}) })
@@ -193,8 +195,8 @@ func partHistories(rp *reporter, thorough bool) *histStats {
 	total := &histStats{rule: rule}
 	states := map[hstate]struct{}{}
 	var mu sync.Mutex
-	for _, pl := range plans {
-		pl := pl
+	for pi, pl := range plans {
+		pi, pl := pi, pl
 		na := len(pl.alpha)
 		nsh := len(bases) * len(states8) * na
 		par.For(nsh, func(sh int) {
@@ -204,6 +206,8 @@ func partHistories(rp *reporter, thorough bool) *histStats {
 			st := &histStats{}
 			local := map[hstate]struct{}{}
 			first := true
+			lrp := rp.at(0)
+			var k uint64
 			seq := make([]sym, pl.depth)
 			seq[0] = pl.alpha[a0]
 			idx := make([]int, pl.depth)
@@ -211,7 +215,9 @@ func partHistories(rp *reporter, thorough bool) *histStats {
 				for k := 1; k < pl.depth; k++ {
 					seq[k] = pl.alpha[idx[k]]
 				}
-				runSeq(rp, base, s0, seq, st, local, first)
+				lrp.ord = 1<<60 + uint64(pi)<<56 + uint64(sh)<<28 + k
+				k++
+				runSeq(lrp, base, s0, seq, st, local, first)
 				first = false
 				k := pl.depth - 1
 				for k >= 1 {
